@@ -141,6 +141,14 @@
  *   procsel                      like proc but through legacy ares_process(fd_sets)
  *   run [<max>]                  repeat proc while some socket has an event pending
  *                                (default max 200 iterations)          RUN iterations=<n>
+ *   runw [<max>]                 like run, but a socket is passed as WRITABLE only while the
+ *                                library has announced write interest for it (last sock_state_cb
+ *                                value when sockstatecb=1, otherwise the write set of ares_fds) and
+ *                                no connect is pending; level triggered (every iteration), like a
+ *                                poll() based application.  READ events as in run.  A short or
+ *                                blocked write alone does NOT produce a write event.
+ *                                RUN iterations=<n> [LIMIT] unwatched=[sockets whose last asendto
+ *                                was short/blocked and that were not reported writable since]
  * Virtual network:
  *   rsp x<j> <spec>              queue a response to transmission j on the socket it was
  *                                sent on (TCP: with length prefix).  <spec> = comma list:
